@@ -113,6 +113,12 @@ func (f FileSpec) driver(pkgName, caseDir string) string {
 		w("var _ DRPC%sServer = impl%d{}", g, si)
 		w("var _ DRPC%sServer = &DRPC%sUnimplementedServer{}", g, g)
 	}
+	// the generated stream types document GetStream() as the way to the runtime's stream (e.g. for SetManualFlush)
+	w("func checkGetStream(t *testing.T, st drpc.Stream) {")
+	w("	gs, ok := st.(interface{ GetStream() drpc.Stream })")
+	w("	if !ok { t.Fatalf(\"generated stream type has no GetStream\") }")
+	w("	if _, ok := gs.GetStream().(interface{ SetManualFlush(bool) }); !ok { t.Fatalf(\"GetStream() does not return the runtime's stream (%%T)\", gs.GetStream()) }")
+	w("}")
 	w("func TestGenerated(t *testing.T) {")
 	w("	mux := drpcmux.New()")
 	for si, s := range f.Services {
@@ -170,6 +176,7 @@ func (f FileSpec) driver(pkgName, caseDir string) string {
 				w("		{")
 				w("			st, err := cli.%s(callCtx(), %s)", mg, mk(m.In, `[]byte("ping")`))
 				w("			if err != nil { t.Fatalf(\"%s.%s: %%v\", err) }", g, mg)
+				w("			checkGetStream(t, st)")
 				w("			for i := 0; i < 2; i++ {")
 				w("				out, err := st.Recv()")
 				w("				if err != nil || !bytes.Equal(%s, []byte(%q)) { t.Fatalf(\"%s.%s recv %%v\", err) }", get(m.Out, "out"), tag+"ping", g, mg)
@@ -181,6 +188,7 @@ func (f FileSpec) driver(pkgName, caseDir string) string {
 				w("		{")
 				w("			st, err := cli.%s(ctx)", mg)
 				w("			if err != nil { t.Fatalf(\"%s.%s: %%v\", err) }", g, mg)
+				w("			checkGetStream(t, st)")
 				w("			for _, p := range []string{\"a\", \"bc\"} { if err := st.Send(%s); err != nil { t.Fatalf(\"send %%v\", err) } }", mk(m.In, "[]byte(p)"))
 				w("			out, err := st.CloseAndRecv()")
 				w("			if err != nil || !bytes.Equal(%s, []byte(%q)) { t.Fatalf(\"%s.%s closeandrecv %%v\", err) }", get(m.Out, "out"), tag+"abc", g, mg)
@@ -190,6 +198,7 @@ func (f FileSpec) driver(pkgName, caseDir string) string {
 				w("		{")
 				w("			st, err := cli.%s(ctx)", mg)
 				w("			if err != nil { t.Fatalf(\"%s.%s: %%v\", err) }", g, mg)
+				w("			checkGetStream(t, st)")
 				w("			for _, p := range []string{\"x\", \"yz\"} {")
 				w("				if err := st.Send(%s); err != nil { t.Fatalf(\"send %%v\", err) }", mk(m.In, "[]byte(p)"))
 				w("				out, err := st.Recv()")
